@@ -21,6 +21,21 @@ PROGRAMS = {
                      "fn main() { spawn work(1); spawn work(2); spawn work(3); println(\"main\"); }\n", False, True),
     "spawn_then_fail": ("fn spin(n: int) { loop { } }\nfn main() { spawn spin(1); spawn spin(2); let i = 0; while i < 400 { i += 1; }"
                         " throw(\"main failed\"); }\n", False, True),
+    # threads which are joined: a core blocked in h.join() has to notice the cancellation as well
+    "join_never_ending": ("fn spin(n: int) -> int { loop { } }\nfn main() { let h = spawn spin(1); println(h.join()); }\n", False, False),
+    "join_chain_never_ending": ("fn spin(n: int) -> int { loop { } }\nfn mid(n: int) -> int { let h = spawn spin(n); h.join() + 1 }\n"
+                                "fn main() { let a = spawn mid(1); let b = spawn mid(2); println(a.join() + b.join()); }\n", False, False),
+    # (a thread which waits for itself, and two which wait for each other: nothing but the cancellation ends these)
+    "join_self": ("let slot: ?{ join: fn() -> int } = none;\nfn w(n: int) -> int { while slot.is_none() { } slot.unwrap().join() }\n"
+                  "fn main() { slot = ?(spawn w(5)); println(\"set\"); loop { } }\n", False, False),
+    "join_each_other": ("let a: ?{ join: fn() -> int } = none;\nlet b: ?{ join: fn() -> int } = none;\n"
+                        "fn wa(n: int) -> int { while b.is_none() { } b.unwrap().join() }\nfn wb(n: int) -> int { while a.is_none() { } a.unwrap().join() }\n"
+                        "fn main() { a = ?(spawn wa(1)); b = ?(spawn wb(2)); println(\"set\"); loop { } }\n", False, False),
+    "join_finite": ("fn work(n: int) -> int { let i = 0; while i < 1500 { i += 1; } i + n }\n"
+                    "fn main() { let a = spawn work(1); let b = spawn work(2); println(b.join(), a.join()); }\n", False, True),
+    "join_sleeping": ("fn nap(n: int) -> int { time.sleep(0.05); n }\nfn main() { let a = spawn nap(1); println(a.join()); }\n", False, True),
+    "join_then_fail": ("fn spin(n: int) -> int { loop { } }\nfn boom(n: int) -> int { let i = 0; while i < 400 { i += 1; } throw(\"thread failed\"); n }\n"
+                       "fn main() { let s = spawn spin(1); let b = spawn boom(2); println(b.join()); println(s.join()); }\n", False, True),
 }
 
 
@@ -126,7 +141,7 @@ def run(args):
             rep.fail(dict(feat, kind="goroutine-leak"), {"source": src, "cancel_at": k, "goroutines": rr["goroutines"]})
         if b == "vm" and resd.get("cores", 0) != 0:
             rep.fail(dict(feat, kind="cores-left"), {"source": src, "cancel_at": k})
-        if b == "vm" and rr.get("trace") and (k % 5 == 0 or "spawn" in name):
+        if b == "vm" and rr.get("trace") and (k % 5 == 0 or "spawn" in name or "join" in name):
             traces.append(rr["trace"])
             owners.append((name, k))
     K.validate_all(traces, owners, rep, {"family": "cancel"})
